@@ -373,6 +373,57 @@ Definition sp_splice (c : cfg) (st : astate) (nx : N) (v : nat) (sb eb : bound) 
     end
   end.
 
+(** the values a lazily cloning replacement iterator draws on: element [k mod len] of the source vector for the
+    k-th item (the harness cycles through the source) *)
+Definition lazy_srcs (ys : list N) (n : nat) : list N := map (fun k => nth (k mod length ys) ys 0) (seq 0 n).
+(** the events of the fill loop of Splice::drop with lazily cloning items, oldest first *)
+Fixpoint sp_lazy_fill_events (srcs ids : list N) : list event :=
+  match srcs, ids with
+  | t :: ts, n :: ns => ENext :: EClone t n :: sp_lazy_fill_events ts ns
+  | _, _ => []
+  end.
+(** splice whose replacement items are LAZY CLONES of elements of another vector [src] (announcing [claimed] items,
+    delivering [n]): as [sp_splice], but the items own nothing - a refused or leaked splice destroys and leaks none
+    of them -, and every item that is taken is consumed by exactly one Clone call that makes a new value *)
+Definition sp_splice_lazy (c : cfg) (st : astate) (nx : N) (v : nat) (sb eb : bound) (pat : list (bool * sink)) (f : fin)
+           (src : nat) (n : N) (claimed : N) : option sres :=
+  if Nat.eqb src v then None else
+  match get_a v st, get_a src st with
+  | Some a, Some b =>
+      let xs := a_xs a in
+      let ys := a_xs b in
+      if (0 <? n) && (length ys =? 0)%nat then Some (panic_res PIndex [] st nx)      (* at(0) of an empty source *)
+      else
+      let srcs := lazy_srcs ys (N.to_nat n) in
+      match range_of_bounds usize_max (N.of_nat (length xs)) (to_sb sb) (to_sb eb) with
+      | None => Some (panic_res (range_panic sb eb) [] st nx)
+      | Some (s, e) =>
+          let s := N.to_nat s in let e := N.to_nat e in
+          match sp_walk xs pat s e with
+          | None => None
+          | Some (rets, ds, i, j) =>
+              let yielded := flat_map (drop_ev c) ds in
+              let kept := set_a v (Some (with_xs a (firstn s xs))) st in
+              match f with
+              | FinForget => Some (ok_res (N.of_nat (e - s) :: rets) yielded kept nx)
+              | FinDrop =>
+                  let written := Nat.min (N.to_nat claimed) (N.to_nat n) in
+                  let ids := next_ids c nx written in
+                  let new_len := N.of_nat s + claimed + N.of_nat (length xs - e) in
+                  if usize_max <? new_len then Some (panic_res POverflow yielded kept nx)
+                  else if (match acap c (a_bk a) with Some cap => cap <? new_len | None => false end)
+                  then Some (panic_res PCapacity yielded kept nx)
+                  else Some (ok_res (N.of_nat (e - s) :: rets)
+                                    (yielded ++ (if c_dg c then map EDrop (firstn (j - i) (skipn i xs)) else [])
+                                             ++ sp_lazy_fill_events (firstn (N.to_nat claimed) srcs) ids
+                                             ++ (if n <? claimed then [ENext] else []))
+                                    (set_a v (Some (with_xs a (VecSpec.sp_splice s e ids xs))) st) (nx + N.of_nat written))
+              end
+          end
+      end
+  | _, _ => None
+  end.
+
 (** ** read-only iteration: iter / iter_mut, typed and erased, cloned iterators, nth / nth_back *)
 
 (** the calls [true] = next(), [false] = next_back() on the cursor [i, j): per call the flag, the value and
@@ -687,6 +738,7 @@ Definition spec_step (c : cfg) (st : astate) (nx : N) (o : op) : option sres :=
       | Some a => Some (ok_res [] (if c_dg c then map EDrop (a_xs a) else []) (set_a v None st) nx)
       end
   | ODrain _ v sb eb pat f => sp_drain c st nx v sb eb pat f
+  | OSplice _ v sb eb pat f (RLazy src) n None claimed => sp_splice_lazy c st nx v sb eb pat f src n claimed
   | OSplice _ v sb eb pat f rk n wrong_at claimed => sp_splice c st nx v sb eb pat f rk n wrong_at claimed
   | OReserve v n => sp_capacity c st nx v (Some n) false
   | OReserveExact v n => sp_capacity c st nx v (Some n) true
